@@ -30,7 +30,7 @@ TEXT["C06"] = dict(
 )
 
 TEXT["C11"] = dict(
-    level="Abstract-model runtime monitoring: every operation history up to the stated depth (sets: 5/6 operations over Add/Delete x 4 values, Clear, two kinds of Clone, from 3 initial contents; ring: 14/18 operations over Push/Clear for capacities 0..6) is executed on the real containers while a Go map / push-log model is advanced in lock-step, and ALL queries are compared after every operation, including early-terminating ranges and the frozen other side of every Clone. The enumerated history space is swept completely; longer histories are not, hence exploration.",
+    level="Abstract-model runtime monitoring: every operation history up to the stated depth (sets: 5/7 operations over Add/Delete x 4 values, Clear, two kinds of Clone, from 3 initial contents; ring: 14/21 operations over Push/Clear for capacities 0..6) is executed on the real containers while a Go map / push-log model is advanced in lock-step, and ALL queries are compared after every operation, including early-terminating ranges and the frozen other side of every Clone. Random walks over sets of up to 5000 values (bulk Add/Delete, Clear, Clone) and ring buffers of capacity 7..4096 add the sizes at which implementations change strategy. The enumerated history space is swept completely; longer histories are not, hence exploration.",
     note="Trusts the 30-line models in harness/c11; only documented nil-receiver behaviour is demanded.",
     technique="runtime shadow-model monitor over bounded-exhaustive operation histories",
 )
@@ -45,7 +45,7 @@ TEXT["C14"] = dict(
     technique="runtime round-trip monitors and stdlib differential over generated values and texts",
 )
 TEXT["C15"] = dict(
-    level="Online conservation monitoring: LimitReader and TruncatedWriter wrap a script-driven reader/writer that itself asserts, at every underlying call, that no more than the remaining limit is requested, while the caller side asserts pass-through of (k, err), prefix delivery, the (0, *LimitError{n}) regime and exact truncated forwarding. All histories over stream length 0..6 x limit 0..7 x 4/5 buffer sizes x 4/5 reader behaviours (and the writer analogue) are enumerated, plus deep random runs. Exploration.",
+    level="Online conservation monitoring: LimitReader and TruncatedWriter wrap a script-driven reader/writer that itself asserts, at every underlying call, that no more than the remaining limit is requested, while the caller side asserts pass-through of (k, err), prefix delivery, the (0, *LimitError{n}) regime and exact truncated forwarding. All histories over stream length 0..6 x limit 0..7 x 4/5 buffer sizes x 4/5 reader behaviours (and the writer analogue) are enumerated, plus deep random runs, limits up to 2^64-1, and trees of 2..4 LimitReaders over one source (chains, siblings sharing a limited parent, readers created late) checked level by level. Exploration.",
     note="Wrapped readers stay inside the io.Reader contract.",
     technique="runtime conservation monitor (hooked wrapped reader/writer) over bounded-exhaustive fault scripts",
 )
@@ -61,7 +61,7 @@ TEXT["C07"] = dict(
     technique="runtime reference-model monitor plus marshal/re-parse round trip",
 )
 TEXT["C08"] = dict(
-    level="Event-log and shadow-model runtime monitoring: the ordered log of Add/HandleInvalid calls made by Parse is compared with a reference (line splitter + C07 reference) for each input under six reader fragmentations incl. injected read errors, four buffer sizes, named/unnamed sources and both destination kinds; DefaultStorage is compared with a two-index model after every Add of every Add-sequence up to depth 3/4 over 45 records plus long random sequences. Exploration.",
+    level="Event-log and shadow-model runtime monitoring: the ordered log of Add/HandleInvalid calls made by Parse is compared with a reference (line splitter + C07 reference) for each input under six reader fragmentations incl. injected read errors, four buffer sizes, named/unnamed sources and both destination kinds, incl. inputs of hundreds of lines and single lines of up to 60 000 bytes, BOM-like heads, and a check that the records a set retained are unchanged after Parse returned; DefaultStorage is compared with a two-index model after every Add of every Add-sequence up to depth 3/4 over 45 records plus long random sequences. Exploration.",
     note="The reader scripts stay inside the io.Reader contract; at most 3 consecutive (0,nil) reads (100 is bufio's own abort).",
     technique="runtime event-log checker over scripted reader fragmentations plus shadow-model monitor of the storage",
 )
@@ -84,7 +84,7 @@ TEXT["C09"] = dict(
 )
 
 TEXT["C10"] = dict(
-    level="Race detection plus linearizability checking of recorded histories: 15 000 (quick) / 300 000 (thorough) short concurrent histories on 9 cache configurations run under the Go race detector; each per-key history, with evictions observed through OnDelete as operations, is checked by porcupine against a sequential register model; every Get value is checksummed, every Stats snapshot is checked against the bounds and the hook's invariants are checked at quiescence; long unrecorded stress runs add race coverage. The evidence reports how many histories had overlapping operations on a key and how often each pair of operation kinds overlapped. Exploration: schedules are sampled, not enumerated.",
+    level="Race detection plus linearizability checking of recorded histories: 15 000 (quick) / 300 000 (thorough) short concurrent histories on 13 cache configurations (count, size and element-size limits, with and without LRU and OnDelete) run under the Go race detector; each per-key history, with evictions observed through OnDelete as operations, is checked by porcupine against a sequential register model; every Get value is checksummed, every Stats snapshot is checked against the bounds and the hook's invariants are checked at quiescence; long unrecorded stress runs add race coverage. The evidence reports how many histories had overlapping operations on a key and how often each pair of operation kinds overlapped. Exploration: schedules are sampled, not enumerated.",
     note="Trusts porcupine v1.3.0, the Go race detector's happens-before analysis for the accesses a run performs, and the 40-line model. A porcupine timeout (20 s) is inconclusive, never a verdict.",
     technique="Go race detector + offline linearizability checking (porcupine) of stamped client-boundary histories, with eviction events from a callback recorder",
 )
@@ -95,18 +95,18 @@ TEXT["C17"] = dict(
     technique="race-detector stress with counting monitors + synctest-bubble scenario enumeration judged at quiescence",
 )
 TEXT["C18"] = dict(
-    level="Online trace-specification monitoring inside synctest bubbles: all Shutdown outcome vectors (nil/error/panic/blocks until timeout) for up to 6/9 services crossed with signal scripts, and all tick-outcome sequences up to 11/19 ticks crossed with the shutdown options, are executed with fully instrumented collaborators; events are injected at quiescence and each log segment is checked against the statement's trace rules. An auxiliary race-detector stage fires ticks and signals concurrently with Shutdown. Exploration (the enumerated outcome space is swept completely; longer histories are not).",
+    level="Online trace-specification monitoring inside synctest bubbles: all Shutdown outcome vectors (nil/error/panic/blocks until timeout) for up to 6/9 services crossed with signal scripts, and all tick-outcome sequences up to 11/19 ticks crossed with the shutdown options, are executed with fully instrumented collaborators; events are injected at quiescence and each log segment is checked against the statement's trace rules. The bubble also checks that the handler subscribed to the shutdown signal it is sent. An auxiliary race-detector stage fires ticks and signals concurrently with Shutdown, and an os_signal stage sends the process real SIGTERM/SIGINT/SIGQUIT through the default notifier. Exploration (the enumerated outcome space is swept completely; longer histories are not).",
     note="Trusts testing/synctest of Go 1.24.2. Ticks racing Shutdown are outside the property's quantifier and only observed for data races.",
     technique="runtime trace checker over an ordered event log of instrumented collaborators, events injected at synctest quiescence",
 )
 
 TEXT["C19"] = dict(
-    level="Write-level runtime monitoring against a reference slog.TextHandler: every Write reaching the shared writer is captured and judged (one newline-terminated JSON object, exactly severity+message, message == reference line for the record plus the attributes accumulated on the derivation path) over all attribute-count derivation trees to depth 4/5 with 3 siblings per level, shared Records, hostile keys/values of every slog.Kind and 6 option sets; a concurrent stage under the race detector writes through a 7-handler tree to one deliberately unsynchronised writer and compares the multiset of lines with the references; a writer-fault stage makes the shared writer fail or panic in one of its first Writes and requires every later record to still come out as one line. Exploration.",
+    level="Write-level runtime monitoring against a reference slog.TextHandler: every Write reaching the shared writer is captured and judged (one newline-terminated JSON object, exactly severity+message, message == reference line for the record plus the attributes accumulated on the derivation path) over all attribute-count derivation trees to depth 4/5 with 3 siblings per level, shared Records, hostile keys/values of every slog.Kind and 10 option sets (4 of them built through slogutil.New with an independently written reference); a concurrent stage under the race detector writes through a 7-handler tree to one deliberately unsynchronised writer and compares the multiset of lines with the references; a writer-fault stage makes the shared writer fail or panic in one of its first Writes and requires every later record to still come out as one line; a reentrant stage formats values that log through the same handler tree while being formatted. Exploration.",
     note="Trusts slog.TextHandler and encoding/json of the pinned stdlib. Comparison is semantic (decoded JSON), so escaping style and member order are free.",
     technique="runtime differential monitor on the writer boundary (reference text handler) + race detector with an unsynchronised recording writer",
 )
 TEXT["C20"] = dict(
-    level="Per-request-id trace checking under concurrency: tens of thousands of requests, each self-identifying in six places, pass through one LogMiddleware from up to 64 goroutines while an in-handler barrier provably holds several requests inside the wrapped handler at once (the evidence reports the maximum observed) and releases them in enumerated orders; log records (from copying and from slice-retaining slog handlers that yield at the suspension points), handler-side observations and client-side responses are grouped by id and must be mutually consistent; repeated under the race detector, with GOMAXPROCS=2 over a real loopback server with keep-alive clients (origin-form, absolute-form and * request targets), and with golibs' own JSONHybridHandler carrying 0..12 chained attributes as the base logger. Middleware order is checked for every permutation of up to 5/7 middlewares, wrapping the same slice repeatedly. Exploration over schedules.",
+    level="Per-request-id trace checking under concurrency: tens of thousands of requests, each self-identifying in six places, pass through one LogMiddleware from up to 64 goroutines while an in-handler barrier provably holds several requests inside the wrapped handler at once (the evidence reports the maximum observed) and releases them in enumerated orders; handlers follow six scripts (nothing, Write, WriteHeader, 1xx+WriteHeader, Flush through a ResponseController, Hijack over the real server); log records (from copying and from slice-retaining slog handlers that yield at the suspension points), handler-side observations and client-side responses are grouped by id and must be mutually consistent; repeated under the race detector, with GOMAXPROCS=2 over a real loopback server with keep-alive clients (origin-form, absolute-form and * request targets, chunked bodies with trailers), and with golibs' own JSONHybridHandler carrying 0..12 chained attributes as the base logger. Middleware order is checked for every permutation of up to 5/7 middlewares, wrapping the same slice repeatedly. Exploration over schedules.",
     note="Trusts net/http/httptest and the race detector. Handlers set at most one final status code.",
     technique="runtime per-id trace checker over recorded log records and responses, barrier-forced overlap, race detector",
 )
